@@ -85,7 +85,7 @@ func genC03(r *vh.Rand) c03Spec {
 			op.Callback = true
 		case op.Kind == "notify" && s.Mode == "c2s" && persistent && s.Version != "" && r.Chance(1, 5):
 			op.Kind, op.WriteMs = "roots", []int{0, 1, 1500, 2500}[r.Intn(4)]
-		case op.Kind == "notify" && s.Mode == "c2s" && (s.Transport == "http" || s.Transport == "http-json") && r.Chance(1, 5):
+		case op.Kind == "notify" && s.Mode == "c2s" && (s.Transport == "http" || s.Transport == "http-json" || s.Transport == "sse") && r.Chance(1, 5):
 			op.Fault503 = true
 			op.FaultSt = []int{503, 503, 500, 502, 504, 429}[r.Intn(6)]
 		case op.Kind == "call" && s.Mode == "s2c" && r.Chance(1, 3):
